@@ -101,7 +101,7 @@ OPS = {
             _one("alphabet", COMMON + ["''", "'abn'", "'ab'", "'xabn'"]) +
             _one("contains", COMMON + ["''", "'nan'", "'an'", "'z'", "'b'"]) +
             _one("regex", COMMON + ["'^$'", "'an+a'", "'('", "'a{99999999999}'", "'z'", "''", "'^x'",
-                                    "'[a-b]+$'", "'a**'", "'^.{2}$'"]) +
+                                    "'[a-b]+$'", "'a**'", "'^.{2}$'", "'(' * 3000 + ')' * 3000"]) +
             _len_ops()),
     "list": _one("call", COMMON + LIST_ARGS) + _len_ops(),
     "dict": _one("call", COMMON + DICT_ARGS),
@@ -147,7 +147,7 @@ def _compiles(p):
     try:
         re.compile(p)
         return True
-    except (re.error, OverflowError):
+    except (re.error, OverflowError, RecursionError):
         return False
 
 
